@@ -374,6 +374,13 @@ def _amplification(opt: Any, params: list, cfg: dict) -> float:
             if not (isinstance(k, str) and k.startswith("block_")) or "shampoo" not in bs:
                 continue
             sh = bs["shampoo"]
+            if soap:
+                # Adam in rotated coordinates divides by sqrt(v) + eps: a rotated component that is zero up to round-off (the off-diagonal of
+                # Q0^T G Q1 at the first step is exactly zero in exact arithmetic) is normalised to +-1 with a sign decided by rounding
+                v = getattr(sh, "corrected_eigenvalues", None)
+                if v is not None and v.numel() and any(bool(Q.any()) for Q in sh.factor_matrices_eigenvectors):
+                    vv = v.double().abs().sqrt()
+                    worst = max(worst, float(vv.max()) / (float(vv.min()) + float(cfg["epsilon"])) if float(vv.max()) > 0 else 0.0)
             used = sh.factor_matrices_eigenvectors if soap else sh.inv_factor_matrices
             for F, X in zip(sh.factor_matrices, used):
                 if not bool(X.any()):
